@@ -88,8 +88,9 @@ MatVerdict(ml, e) ==
 
 FileVerdict2(lines, g, e, stamps) ==
   IF GVerdict(g) # "" THEN "WellFormed." \o GVerdict(g)
-  ELSE IF [q \in 1..Len(g.blocks) |-> g.blocks[q].nm] # BlockSeq(e) THEN "WellFormed.blocks_present"
-  ELSE LET off == IF e.comm THEN 1 ELSE 0
+  ELSE IF [q \in 1..Len(g.blocks) |-> g.blocks[q].nm] \notin {BlockSeq(e), BlockSeq([e EXCEPT !.comm = ~e.comm])}
+       THEN "WellFormed.blocks_present"            \* the comment block is optional, the four data blocks are not
+  ELSE LET off == Len(g.blocks) - 4
            hv  == HeaderVerdict(SelectSeq(lines, LAMBDA x : x.k = "header")[1], e, stamps)
            mb  == g.blocks[off + 4]
        IN IF hv # "" THEN hv
